@@ -179,6 +179,17 @@ CHECKS = {
         note="Field values compared through digests. Quick: 8 modules per host (about 500 code objects each); thorough: 70 modules.",
         technique="TLA+ conversion state machine; TLC trace validation of recorded conversions under every host",
     ),
+    "C20": dict(
+        category="model_checking",
+        text="Under every host 3.8-3.13, for 14 object kinds x 3 first_line values, xdis.std.get_instructions/findlabels/findlinestarts and the host's "
+             "own dis are recorded on the same object and both judged by the same instance of the reference decoder BytecodeTrace.tla (opcode, operand, "
+             "argval resolution, jump targets, labels, is_jump_target, starts_line with the first_line shift as a spec rule); acceptance vs TypeError "
+             "must agree; module-level opmap/opname/has*/HAVE_ARGUMENT/EXTENDED_ARG are compared with dis. make_std_api(v) is judged on producer "
+             "files of each version v under a foreign host.",
+        design_ref="DESIGN.md section 5 C20, specs S3 S4",
+        note="stack_effect is C15. has* tables compared as sets. dis.dis text not compared. 3.11/3.12 get_instructions marks no handler targets (both sides).",
+        technique="TLC trace validation of xdis.std and of the host's dis against the same TLA+ reference decoder, per host and object kind",
+    ),
 }
 
 NOT_YET = "check not built yet in this round (planned: see DESIGN.md section 5); not claimed until its machinery exists"
